@@ -135,6 +135,13 @@ func (e *SpecEnv) eval(x ast.Expr) Val {
 		return e.index(v, i, x)
 	case *ast.SliceExpr:
 		v := e.eval(x.X)
+		if sq, ok := v.(SeqV); ok && sq.N.S != "" {
+			// slicing an array value: read-only view
+			oid := st.c.newObj()
+			st.objs[oid] = sq
+			e.cur().objs[oid] = sq
+			v = SliceV{Arr: oid, Off: intLit(0), Len: sq.N, Cap: sq.N, Nil: tFalse, Typ: types.NewSlice(elemTypeOfSeq(sq))}
+		}
 		sl, ok := v.(SliceV)
 		if !ok {
 			return e.fail("slice expression on %T", v)
@@ -433,6 +440,38 @@ func (e *SpecEnv) call(x *ast.CallExpr) Val {
 			e.err = n.err
 		}
 		return r
+	case "ncalls", "calllog":
+		// ncalls("callee"): number of calls so far; calllog("callee", j): the j-th result component of
+		// all calls so far, as a sequence indexed by call number
+		lit, ok := x.Args[0].(*ast.BasicLit)
+		if !ok || lit.Kind != token.STRING {
+			return e.fail("%s needs a string literal", name)
+		}
+		cn, _ := strconv.Unquote(lit.Value)
+		lg, ok := e.cur().logs[cn]
+		if !ok {
+			if name == "ncalls" {
+				return Scalar{intLit(0), types.Typ[types.Int]}
+			}
+			return e.fail("calllog: no call to %s is logged here (add `log %s`)", cn, cn)
+		}
+		if name == "ncalls" {
+			return Scalar{lg.Cnt, types.Typ[types.Int]}
+		}
+		j := 0
+		if len(x.Args) > 1 {
+			if jv, ok := e.eval(x.Args[1]).(ConstV); ok {
+				j = int(jv.N.Int64())
+			}
+		}
+		if j >= len(lg.Arrs) || lg.Types[j] == nil {
+			return e.fail("calllog: no such result component")
+		}
+		oid := st.c.newObj()
+		seq := SeqV{Tree: SeqTree{Arr: lg.Arrs[j], Typ: lg.Types[j]}, Typ: lg.Types[j]}
+		st.objs[oid] = seq
+		e.cur().objs[oid] = seq
+		return SliceV{Arr: oid, Off: intLit(0), Len: lg.Cnt, Cap: lg.Cnt, Nil: tFalse, Typ: types.NewSlice(lg.Types[j])}
 	case "resultof":
 		// resultof("callee#k") or resultof("callee#k", i): the value returned by that call on this path
 		lit, ok := x.Args[0].(*ast.BasicLit)
